@@ -3,3 +3,6 @@ import Woodpile.Gen.Consts
 import Woodpile.Model.Arena
 import Woodpile.Model.ReadN
 import Woodpile.Model.Stream
+import Woodpile.Proofs.StreamBytes
+import Woodpile.Proofs.Stream
+import Woodpile.Props.C08
